@@ -1,7 +1,9 @@
 """Helpers shared by the godev checks C12 and C18 (kept out of vlib/core.py on
 purpose: vlib is not ours to edit)."""
+import atexit
 import os
 import shutil
+import tempfile
 
 from vlib.core import HARNESS, Infra
 
@@ -24,3 +26,13 @@ def summary_of(recs, out, what):
     if not s:
         raise Infra('%s harness wrote no summary:\n%s' % (what, out[-3000:]))
     return s[0]
+
+
+def fast_tmp_env(ctx):
+    """{'C12_TMP': dir} with a private directory on tmpfs (/dev/shm) when there
+    is one -- the endpoint harness does tens of thousands of tiny file
+    operations -- else the work directory.  Removed at exit."""
+    base = '/dev/shm' if os.path.isdir('/dev/shm') and os.access('/dev/shm', os.W_OK) else ctx.work
+    d = tempfile.mkdtemp(prefix='verif-%s-' % ctx.prop, dir=base)
+    atexit.register(shutil.rmtree, d, True)
+    return {'C12_TMP': d}
